@@ -170,98 +170,70 @@ theorem safe_doSlots (st : St) (ss : List SlotStmt) : Safe (doSlots st ss) := by
     simp only [doSlots]
     exact safe_bind' (safe_doSlot _ _) fun _ => ih _
 
-/-! ### Settings: the only panic is the missing `(index)` -/
+/-! ### Settings (a missing `(index)` is an error value since 1c3df29) -/
 
-theorem safe_second {s : Setting} (h : s.index.isSome) : Safe s.second := by
+@[simp] theorem safe_second (s : Setting) : Safe s.second := by
   unfold Setting.second
-  cases hi : s.index with
-  | none => simp [hi] at h
-  | some n => simp
+  split <;> simp
 
-theorem safe_prmDataRef (st : St) (s : Setting) (prm : UserPrmData) (h : s.index.isSome) :
-    Safe (prmDataRef st s prm) := by
+theorem safe_prmDataRef (st : St) (s : Setting) (prm : UserPrmData) : Safe (prmDataRef st s prm) := by
   unfold prmDataRef
-  refine safe_bind' (by simp) fun _ => safe_bind' (safe_second h) fun _ => ?_
+  refine safe_bind' (by simp) fun _ => safe_bind' (safe_second s) fun _ => ?_
   exact safe_bind' (by simp) fun _ => by split <;> simp
 
-theorem safe_prmDataConst (s : Setting) (prm : UserPrmData) (h : s.index.isSome) :
-    Safe (prmDataConst s prm) := by
+theorem safe_prmDataConst (s : Setting) (prm : UserPrmData) : Safe (prmDataConst s prm) := by
   unfold prmDataConst
-  refine safe_bind' (by simp) fun _ => safe_bind' (safe_second h) fun _ => ?_
+  refine safe_bind' (by simp) fun _ => safe_bind' (safe_second s) fun _ => ?_
   exact safe_bind' (by simp) fun _ => by simp
 
-theorem safe_diagBit (st : St) (s : Setting) (nb hp : Bool) (h : s.index.isSome) :
-    Safe (diagBit st s nb hp) := by
+theorem safe_diagBit (st : St) (s : Setting) (nb hp : Bool) : Safe (diagBit st s nb hp) := by
   unfold diagBit
-  refine safe_bind' (by simp) fun _ => safe_bind' (safe_second h) fun _ => ?_
+  refine safe_bind' (by simp) fun _ => safe_bind' (safe_second s) fun _ => ?_
   exact safe_bind' (by simp) fun _ => by cases nb <;> simp
 
-theorem safe_moduleSetting (st : St) (acc : ModAcc) (s : Setting) (h : s.unindexedModule = false) :
-    Safe (moduleSetting st acc s) := by
-  have hidx : ∀ k ∈ indexedModule, lower s.key = k → s.index.isSome := by
-    intro k hk hkey
-    cases hi : s.index with
-    | some _ => rfl
-    | none =>
-      simp [Setting.unindexedModule, hi] at h
-      exact absurd (hkey ▸ hk) h
+theorem safe_moduleSetting (st : St) (acc : ModAcc) (s : Setting) : Safe (moduleSetting st acc s) := by
   unfold moduleSetting
   dsimp only
   split
   · exact safe_bind' (by simp) fun _ => by simp
   · split
-    · rename_i hk
-      exact safe_bind' (safe_prmDataRef _ _ _ (hidx _ (by simp [indexedModule]) hk)) fun _ => by simp
+    · exact safe_bind' (safe_prmDataRef _ _ _) fun _ => by simp
     · split
-      · rename_i hk
-        exact safe_bind' (safe_prmDataConst _ _ (hidx _ (by simp [indexedModule]) hk)) fun _ => by simp
+      · exact safe_bind' (safe_prmDataConst _ _) fun _ => by simp
       · split
         · exact safe_bind' (by simp) fun _ => by simp
         · simp
 
-theorem safe_moduleItems (st : St) (items : List ModItem) (acc : ModAcc)
-    (h : items.any ModItem.unindexed = false) : Safe (moduleItems st items acc) := by
+theorem safe_moduleItems (st : St) (items : List ModItem) (acc : ModAcc) : Safe (moduleItems st items acc) := by
   induction items generalizing acc with
   | nil => simp [moduleItems]
   | cons it rest ih =>
-    rw [List.any_cons, Bool.or_eq_false_iff] at h
     cases it with
     | reference n =>
       simp only [moduleItems]
-      exact safe_bind' (by simp) fun _ => ih _ h.2
+      exact safe_bind' (by simp) fun _ => ih _
     | setting s =>
       simp only [moduleItems]
-      exact safe_bind' (safe_moduleSetting _ _ _ h.1) fun _ => ih _ h.2
+      exact safe_bind' (safe_moduleSetting _ _ _) fun _ => ih _
     | dataArea =>
       simp only [moduleItems]
-      exact ih _ h.2
+      exact ih _
 
-theorem safe_doModule (st : St) (m : ModuleStmt) (h : (Stmt.module m).unindexed = false) :
-    Safe (doModule st m) := by
+theorem safe_doModule (st : St) (m : ModuleStmt) : Safe (doModule st m) := by
   unfold doModule
   refine safe_bind' (by simp) fun _ => ?_
-  exact safe_bind' (safe_moduleItems _ _ _ h) fun _ => by simp
+  exact safe_bind' (safe_moduleItems _ _ _) fun _ => by simp
 
-theorem safe_specialSetting (st : St) (k : Str) (s : Setting) (hk : k = lower s.key)
-    (h : s.unindexedTop = false) : Safe (specialSetting st k s) := by
-  have hidx : ∀ k' ∈ indexedTop, k = k' → s.index.isSome := by
-    intro k' hk' hkey
-    cases hi : s.index with
-    | some _ => rfl
-    | none =>
-      simp [Setting.unindexedTop, hi] at h
-      exact absurd (hk ▸ hkey ▸ hk') h
+theorem safe_specialSetting (st : St) (k : Str) (s : Setting) : Safe (specialSetting st k s) := by
   unfold specialSetting
   split
   · exact safe_bind' (by simp) fun _ => by simp
   split
   · exact safe_bind' (by simp) fun _ => by simp
   split
-  · rename_i hk
-    exact safe_bind' (safe_prmDataRef _ _ _ (hidx _ (by simp [indexedTop]) hk)) fun _ => by simp
+  · exact safe_bind' (safe_prmDataRef _ _ _) fun _ => by simp
   split
-  · rename_i hk
-    exact safe_bind' (safe_prmDataConst _ _ (hidx _ (by simp [indexedTop]) hk)) fun _ => by simp
+  · exact safe_bind' (safe_prmDataConst _ _) fun _ => by simp
   split
   · simp
   split
@@ -273,16 +245,16 @@ theorem safe_specialSetting (st : St) (k : Str) (s : Setting) (hk : k = lower s.
     · simp
     · exact safe_bind' (by simp) fun _ => by split <;> simp
   split
-  · rename_i hk; exact safe_diagBit _ _ _ _ (hidx _ (by simp [indexedTop]) hk)
+  · exact safe_diagBit _ _ _ _
   split
-  · rename_i hk; exact safe_diagBit _ _ _ _ (hidx _ (by simp [indexedTop]) hk)
+  · exact safe_diagBit _ _ _ _
   split
-  · rename_i hk; exact safe_diagBit _ _ _ _ (hidx _ (by simp [indexedTop]) hk)
+  · exact safe_diagBit _ _ _ _
   split
-  · rename_i hk; exact safe_diagBit _ _ _ _ (hidx _ (by simp [indexedTop]) hk)
+  · exact safe_diagBit _ _ _ _
   simp
 
-theorem safe_doSetting (st : St) (s : Setting) (h : s.unindexedTop = false) : Safe (doSetting st s) := by
+theorem safe_doSetting (st : St) (s : Setting) : Safe (doSetting st s) := by
   unfold doSetting
   dsimp only
   split
@@ -291,25 +263,24 @@ theorem safe_doSetting (st : St) (s : Setting) (h : s.unindexedTop = false) : Sa
     · exact safe_bind' (by simp) fun _ => by simp
     · split
       · exact safe_bind' (by simp) fun _ => by simp
-      · exact safe_specialSetting _ _ _ rfl h
+      · exact safe_specialSetting _ _ _
 
-theorem safe_doStmt (st : St) (s : Stmt) (h : s.unindexed = false) : Safe (doStmt st s) := by
+theorem safe_doStmt (st : St) (s : Stmt) : Safe (doStmt st s) := by
   cases s with
   | prmText p => exact safe_doPrmText _ _
   | extPrm e => exact safe_doExtPrm _ _
-  | module m => exact safe_doModule _ _ h
+  | module m => exact safe_doModule _ _
   | slots ss => exact safe_doSlots _ _
   | area a => exact safe_doArea _ _
-  | setting s => exact safe_doSetting _ _ h
+  | setting s => exact safe_doSetting _ _
   | ignored => simp [doStmt]
 
-theorem safe_run (st : St) (ast : Ast) (h : hasUnindexed ast = false) : Safe (run st ast) := by
+theorem safe_run (st : St) (ast : Ast) : Safe (run st ast) := by
   induction ast generalizing st with
   | nil => simp [run]
   | cons s rest ih =>
-    rw [hasUnindexed, List.any_cons, Bool.or_eq_false_iff] at h
     simp only [run]
-    exact safe_bind' (safe_doStmt _ _ h.1) fun _ => ih _ h.2
+    exact safe_bind' (safe_doStmt _ _) fun _ => ih _
 
 /-- The `unwrap()` of the compact-station post-processing is unreachable: without a `Max_Module`
 statement the value has just been set to 1. -/
